@@ -47,6 +47,9 @@ for d in demos:
     crate = d.split("/")[0]
     kind = "--test" if "/tests/" in d else "--example"
     cmd = "cargo +1.80.0 %s --manifest-path %s/Cargo.toml --offline %s %s 2>&1 | tail -15" % ("test" if kind == "--test" else "run", crate, kind, name)
+    if crate == "fastrace-futures":
+        # feature unification: fastrace's `enable` comes from the workspace
+        cmd = "cargo +1.80.0 test --workspace --offline --test %s 2>&1 | tail -15" % name
     rc1, o1 = sh(cmd, W, 1800)
     failed_with = ("test result: FAILED" in o1) or ("panicked" in o1) or ("error: test failed" in o1)
     sh("git apply -R %s/patch.diff" % O, W)
